@@ -1,4 +1,5 @@
-import LunarVerif.Proofs.C06Ops
+import LunarVerif.Proofs.C06Seq
+import LunarVerif.Proofs.C06Ttl
 /-!
 # C06 — Queued requests: one verdict within TTL, priority order, bounded queue
 
@@ -110,6 +111,24 @@ example :
     s.loop = .running ∧ (minItem s.heap).map (·.id) = some 1 ∧ (s.reqs 0).pc = .parked ∧ (s.reqs 0).st = .enqueued := by
   decide +kernel
 
+/-- What does hold within one priority (without shutdown, under every schedule): the loop serves in
+the order of the LAST push — arrival or re-push after a refused attempt — not in the order of
+arrival: the popped minimum `m` has the smallest heap timestamp among all entries of its priority,
+and every waiter that could be served has an entry.  That the last push is not the arrival is
+exactly F06a. -/
+theorem fifo_by_last_push (cfg : Cfg) (t0 : Nat) (acts : List Act) (hn : noCancel acts) :
+    let s := run cfg (St.init t0) acts
+    ∀ m, s.loop = .running → minItem s.heap = some m →
+      (∀ x ∈ s.heap, x.prio = m.prio → m.ts ≤ x.ts) ∧
+      ∀ i, (s.reqs i).pc = .parked → (s.reqs i).st = .enqueued → ∃ x ∈ s.heap, x.id = i := by
+  intro s m hl hm
+  have h := (invAH_run cfg acts (St.init t0) hn (invA_init t0) (invH_init t0)).2
+  refine ⟨fun x hx hp => ?_, fun i hp hs => h.el i hp hs (by rw [hl]; simp)⟩
+  have := minItem_le _ _ hm x hx
+  unfold hle at this
+  simp [hp] at this
+  exact this
+
 /-- F06a.  FIFO within one priority does NOT hold: in this run (no shutdown, no overlapping
 arrivals; quota 1 per second, already used by request 0) requests 1 and 2 have equal priority, 1
 is queued before 2, 1's attempt is refused by the quota and 1 is pushed again with a later
@@ -141,6 +160,17 @@ example :
   refine ⟨fun ⟨_, h⟩ => (by cases h), ?_⟩
   exact ⟨fun ⟨_, h⟩ => (by cases h), trivial⟩
 
+/-- The bound for driver runs: every run of macro-operations that uses neither the gate after the
+slot test (`arriveBegin`) nor shutdown has non-overlapping arrivals, hence at most `queue_size`
+requests wait after it — in particular every sequential scenario the harness replays on the real
+processor (the state after EVERY prefix is covered: a prefix of such a run is such a run). -/
+theorem size_bound_sequential_ops (cfg : Cfg) (t0 : Nat) (ops : List Op)
+    (hb : ∀ op ∈ ops, isArriveBegin op = false) (hd : Op.drain ∉ ops) :
+    (nWaiting (runOps cfg { s := St.init t0 } ops).s : Int) ≤ max cfg.size 0 := by
+  rw [runOps_eq_run]
+  exact size_bound_sequential cfg t0 _
+    (seqArr_schedule cfg ops { s := St.init t0 } hb hd (invA_init t0) (fun i => by simp [St.init]))
+
 /-- F06b.  With overlapping arrivals the bound does NOT hold: `queue_size = 1`, two arrivals pass
 the slot test before either registers; both wait. -/
 theorem size_bound_violation_witness :
@@ -156,6 +186,28 @@ theorem size_bound_violation_observable :
       scan (boundOk cfg) [] h = false ∧ coreOk cfg h = true ∧ finding cfg h = some "F06b" :=
   ⟨⟨1, 2000, 2, 1000⟩, 1700000000000, [.arriveBegin 0, .arriveBegin 0, .arriveEnd 0, .arriveEnd 1, .tick],
    by decide +kernel⟩
+
+/-! ### (T) time-outs are never early -/
+
+/-- Without shutdown, under every schedule: a request whose result is `timeout` is past its TTL on
+the clock, strictly (`now > arrival + ttl`, as `time.After` in `notifyExpiredRequests`).  The upper
+bound ("no later than TTL + slack") is real-time behaviour of the watcher and is only measured. -/
+theorem timeout_only_after_ttl (cfg : Cfg) (t0 : Nat) (acts : List Act) (hn : noCancel acts) :
+    let s := run cfg (St.init t0) acts
+    ∀ i, (s.reqs i).res = .timeout → (s.reqs i).arrival + cfg.ttl < s.now := by
+  intro s i hi
+  have h : InvW cfg s := (invAW_run cfg acts (St.init t0) hn (invA_init t0) (invW_init cfg t0)).2
+  exact (h.w2 i hi).2
+
+/-- non-vacuity: TTL 1 s, a quota that admits nothing: after 10 ticks (now = arrival + TTL) the
+request still waits, after the 11th it is rejected by time-out. -/
+example :
+    let x10 := runOps ⟨2, 1000, 0, 1000⟩ { s := St.init 1700000000000 }
+      [.arrive 0, .tick, .tick, .tick, .tick, .tick, .tick, .tick, .tick, .tick, .tick, .idle]
+    let x11 := applyOp ⟨2, 1000, 0, 1000⟩ x10 .tick
+    (x10.s.reqs 0).res = .pending ∧ (x10.s.reqs 0).pc = .parked ∧ (x11.s.reqs 0).res = .timeout ∧
+    (x11.s.reqs 0).pc = .removed := by
+  decide +kernel
 
 /-! ### (D) shutdown -/
 
